@@ -128,6 +128,9 @@ func TestVerifPoolRun(t *testing.T) {
 		cfg.Address = "127.0.0.1"
 		cfg.Port = 0
 		cfg.DialTimeout = 500 * time.Millisecond
+		// the per-connection write queue: the default, or so short that a peer that does not read fills it at once
+		cfg.ConnectionWriteQueueSize = []int{1, 2, cfg.ConnectionWriteQueueSize}[rng.Intn(3)]
+		cfg.MaxOutgoingMessageLength = 8 << 20
 		p, err := NewConnectionPool(cfg, nil)
 		if err != nil {
 			t.Fatal(err)
@@ -145,6 +148,9 @@ func TestVerifPoolRun(t *testing.T) {
 			r.DelayUs = 200 + rng.Intn(2000)
 		default:
 			r.DelayUs = 2000 + rng.Intn(8000)
+		}
+		if rng.Intn(6) == 0 {
+			r.DelayUs = 20000 + rng.Intn(40000) // long enough for a stalled peer's socket and write queue to fill up
 		}
 		runDone := make(chan struct{})
 		// one lifetime in five is the "no incoming connections" mode: requests are processed, nothing listens
@@ -198,8 +204,10 @@ func TestVerifPoolRun(t *testing.T) {
 						// a peer that is not there: the dial is refused
 						note("connect-refused", p.Connect(deadPeer))
 					case 6:
-						if crng.Intn(2) == 0 {
-							note("send", p.SendMessage(peer, &vwMsg{A: 1, B: make([]byte, 200*1024)})) // fills the socket of a peer that does not read
+						if k := crng.Intn(4); k == 0 {
+							note("send", p.SendMessage(peer, &vwMsg{A: 1, B: make([]byte, 4<<20)})) // more than the socket of a peer that does not read takes
+						} else if k == 1 {
+							note("send", p.SendMessage(peer, &vwMsg{A: 1, B: make([]byte, 200*1024)}))
 						} else {
 							note("send", p.SendMessage(peer, &vwMsg{A: 1, B: []byte{1, 2, 3}}))
 						}
